@@ -161,31 +161,29 @@ Fixpoint content (fuel : nat) (o c : ascii) (s : chars) : chars :=
   end.
 
 (* nestedExpr(o, c): o (quotedString | nested | content)* c with white space skipped before each element *)
+Fixpoint nested_body (rec : chars -> option chars) (o c : ascii) (k : nat) (t : chars) : option chars :=
+  match k with
+  | O => None
+  | S k' =>
+    let t' := skip_ws t in
+    match iquoted_any t' with
+    | Some t2 => nested_body rec o c k' t2
+    | None =>
+      match rec t' with
+      | Some t2 => nested_body rec o c k' t2
+      | None =>
+        let t2 := content (length t') o c t' in
+        if Nat.ltb (length t2) (length t') then nested_body rec o c k' t2
+        else match t' with y :: t3 => if ceq y c then Some t3 else None | [] => None end
+      end
+    end
+  end.
 Fixpoint nested (fuel : nat) (o c : ascii) (s : chars) : option chars :=
   match fuel with
   | O => None
   | S f =>
     match s with
-    | x :: r =>
-      if ceq x o then
-        (fix body (k : nat) (t : chars) : option chars :=
-           match k with
-           | O => None
-           | S k' =>
-             let t' := skip_ws t in
-             match iquoted_any t' with
-             | Some t2 => body k' t2
-             | None =>
-               match nested f o c t' with
-               | Some t2 => body k' t2
-               | None =>
-                 let t2 := content (length t') o c t' in
-                 if Nat.ltb (length t2) (length t') then body k' t2
-                 else match t' with y :: t3 => if ceq y c then Some t3 else None | [] => None end
-               end
-             end
-           end) (S (length r)) r
-      else None
+    | x :: r => if ceq x o then nested_body (nested f o c) o c (S (length r)) r else None
     | [] => None
     end
   end.
